@@ -65,7 +65,7 @@ def _sequence(ctx, role, classes, cat, seqlen):
     rng = ctx.rng
     rig = GemRig(role=role, active=rng.random() < 0.3, t3=1.0)
     if not rig.establish():
-        ctx.violation("cannot-establish-communication", {"role": role, "comm": rig.comm_state, "link": rig.state})
+        ctx.unsure("precondition failed: the handler did not reach COMMUNICATING with a cooperative peer (C07/C20 judge that)")
         rig.shutdown()
         return
     handler = rig.handler
@@ -103,9 +103,41 @@ def _sequence(ctx, role, classes, cat, seqlen):
         user["rcmd_START"] = "raise"
     injected = []
     start = rig.n_frames()
+
+    def answered():
+        have = {f.system for _, f in rig.data_frames(start)}
+        return all((not p["wbit"]) or p["system"] in have for p in injected)
+
+    def mutate_registrations():
+        """Change the user callbacks in the middle of the sequence (only at a quiescent point, so that the registration
+        in force for every injected primary is unambiguous)."""
+        if not rig.wait(answered, timeout=10.0):
+            rig.confirm_absent(answered, 0.4)
+        rig.quiesce(1.0)
+        keys = [k for k in user if isinstance(k, tuple)]
+        if not keys:
+            return
+        key = rng.choice(keys)
+        s, f = key
+        action = rng.choice(["unregister", "raise", "return-abort"])
+        if action == "unregister":
+            handler.unregister_stream_function(s, f)
+            user[key] = "unregistered"
+        elif action == "raise":
+            def cb(h, m):
+                raise RuntimeError("user callback fails")
+            handler.register_stream_function(s, f, cb)
+            user[key] = "raise"
+        else:
+            handler.register_stream_function(s, f, lambda h, m, s=s: h.stream_function(s, 0)() if (s, 0) in classes else (_ for _ in ()).throw(RuntimeError("no abort class")))
+            user[key] = "return-abort" if (s, 0) in classes else "raise"
+        ctx.count("user_callback.changed_mid_sequence")
+
     for _ in range(seqlen):
         r = rng.random()
         wbit = rng.random() < 0.75
+        if user and rng.random() < 0.12:
+            mutate_registrations()
         if r < 0.45 and handled:
             s, f = rng.choice(handled)
             cls = classes.get((s, f))
@@ -115,7 +147,7 @@ def _sequence(ctx, role, classes, cat, seqlen):
                 body = F.SecsS02F41({"RCMD": rng.choice(["START", "STOP", "NOPE"]), "PARAMS": []}).encode()
                 kind = "conforming"
             expect = "handled"
-        elif r < 0.60 and user:
+        elif r < 0.66 and user:
             key = rng.choice([k for k in user if isinstance(k, tuple)] or [None])
             if key is None:
                 continue
@@ -148,9 +180,6 @@ def _sequence(ctx, role, classes, cat, seqlen):
         injected.append({"system": system, "s": s, "f": f, "wbit": wbit, "kind": kind, "expect": expect, "header": header, "body": body})
         ctx.case((role, s, f, wbit, kind, body), nontrivial=wbit or expect == "handled")
     # wait until every W primary has an answer or nothing moves
-    def answered():
-        have = {f.system for _, f in rig.data_frames(start)}
-        return all((not p["wbit"]) or p["system"] in have for p in injected)
     if not rig.wait(answered, timeout=10.0):
         rig.confirm_absent(answered, 0.4)
     rig.quiesce(2.0)
